@@ -32,7 +32,7 @@ func fieldDeps(v ssa.Value) map[string]bool {
 }
 
 func ruleContext(c *Ctx) *RuleResult {
-	r := newResult("R-CONTEXT", "context bookkeeping has the dependencies the budget rules need (presence of data flow, not expression shape): (a) in PushContext the value stored to hardLimits depends on the old hardLimits, on usedResources and on the requested HardLimits; the value stored to softLimits depends on the new hardLimits and on the requested SoftLimits; when time is tracked the parent's elapsed time is refreshed before that, under no other condition than trackTime; (b) PopContext charges the child's used Cpu and Memory to the parent (RequireCPU/RequireMem on m.parent with the child's usedResources) before restoring the parent; (c) the status field is written only by its owners: Live in PushContext, Done on the returned copy in PopContext, Killed in TerminateContext (or its helper terminate), and setStatus, which only CallContext calls, on the err != nil branch, after everything that can run Lua code (the to-be-closed handlers and finalisers) — otherwise those would run with limits switched off; (d) Due() depends on stopLevel, softLimits and usedResources; (e) running out of CPU or memory is not an error a nested context can swallow: the termination raised by requireCPU and by requireMem depends on a field PushContext derives from the requested limits (whose memory ran out: the context's own, or what its parent had left), and CallContext's recover handler hands the recovered value to a function that can terminate the restored context and whose decision depends on it — a pcall's context has no memory of its own, so without this `pcall(string.rep, 'x', 1e9)` turns the kill into a catchable error and the program carries on")
+	r := newResult("R-CONTEXT", "context bookkeeping has the dependencies the budget rules need (presence of data flow, not expression shape): (a) in PushContext the value stored to hardLimits depends on the old hardLimits, on usedResources and on the requested HardLimits; the value stored to softLimits depends on the new hardLimits and on the requested SoftLimits; when time is tracked the parent's elapsed time is refreshed before that, under no other condition than trackTime; (b) PopContext charges the child's used Cpu and Memory to the parent (RequireCPU/RequireMem on m.parent with the child's usedResources) before restoring the parent; (c) the status field is written only by its owners: Live in PushContext, Done on the returned copy in PopContext, Killed in TerminateContext (or its helper terminate), and setStatus, which only CallContext calls, on the err != nil branch, after everything that can run Lua code (the to-be-closed handlers and finalisers) — otherwise those would run with limits switched off; (d) Due() depends on stopLevel, softLimits and usedResources; (e) running out of CPU or memory is not an error a nested context can swallow: the termination raised by requireCPU and by requireMem depends on a field PushContext derives from both the requested limits and the effective ones (whose budget ran out: the context's own, or what its parent had left — a request for more than the parent has left is clamped, so the request alone does not say), and CallContext's recover handler hands the recovered value to a function that can terminate the restored context and whose decision depends on it — a pcall's context has no memory of its own, so without this `pcall(string.rep, 'x', 1e9)` turns the kill into a catchable error and the program carries on")
 	p := c.P
 	if p.Config.Tags == "noquotas" {
 		r.note("noquotas build: no budgets; rule not applicable")
@@ -331,7 +331,14 @@ func ruleContext(c *Ctx) *RuleResult {
 			if tn != "runtimeContextManager" {
 				return
 			}
-			if fieldDeps(st.Val)["RuntimeContextDef.HardLimits"] || sliceWithFields(st.Val)[push.Params[1]] {
+			deps := fieldDeps(st.Val)
+			if fn == "hardLimits" || fn == "softLimits" {
+				return
+			}
+			// whose budget it is cannot be read off the request alone: a request for more
+			// than the parent has left is clamped, so the flag has to depend on the
+			// effective limit (or what the parent had left) as well
+			if (deps["RuntimeContextDef.HardLimits"] || sliceWithFields(st.Val)[push.Params[1]]) && (deps["runtimeContextManager.hardLimits"] || deps["runtimeContextManager.usedResources"]) {
 				fromRequest[fn] = true
 			}
 		})
@@ -474,7 +481,7 @@ func ruleContext(c *Ctx) *RuleResult {
 		}
 	}
 	if len(miss) == 0 {
-		r.ok("(d) Due() depends on stopLevel, softLimits and usedResources; (e) running out of CPU or memory is not an error a nested context can swallow: the termination raised by requireCPU and by requireMem depends on a field PushContext derives from the requested limits (whose memory ran out: the context's own, or what its parent had left), and CallContext's recover handler hands the recovered value to a function that can terminate the restored context and whose decision depends on it — a pcall's context has no memory of its own, so without this `pcall(string.rep, 'x', 1e9)` turns the kill into a catchable error and the program carries on")
+		r.ok("(d) Due() depends on stopLevel, softLimits and usedResources; (e) running out of CPU or memory is not an error a nested context can swallow: the termination raised by requireCPU and by requireMem depends on a field PushContext derives from both the requested limits and the effective ones (whose budget ran out: the context's own, or what its parent had left — a request for more than the parent has left is clamped, so the request alone does not say), and CallContext's recover handler hands the recovered value to a function that can terminate the restored context and whose decision depends on it — a pcall's context has no memory of its own, so without this `pcall(string.rep, 'x', 1e9)` turns the kill into a catchable error and the program carries on")
 	} else {
 		r.fail("due-dependency", p.Pos(due.Pos()), "Due() no longer depends on "+strings.Join(miss, ", ")+": 'due' would not be true exactly when a soft limit is reached or a stop was requested")
 	}
